@@ -61,14 +61,16 @@ where
 `SequenceValue`'s dataclass hash and `==` also cover the derived field `args = unite_values(members)`;
 the model compares the members only. The two agree unless the merge pattern of `unite_values` on
 the members can differ between two member-wise hash-equal (resp. `==`) sequence forms, which needs
-two flattened members of one sequence form that are hash-equal but not `==` (`tuple[int, Literal[0]]`)
-or `==` but not hash-equal (`tuple[[1], [1]]`, `tuple[list[int | str], list[str | int]]`). Terms
-containing such a sequence form are outside the fragment on which `hash`/`==` are compared. -/
+two flattened members of one sequence form (possibly the same one: an unhashable literal, whose
+`args` are compared as a set once the member order differs) that are hash-equal but not `==`
+(`tuple[int, Literal[0]]`) or `==` but not hash-equal (`tuple[[1], int]`,
+`tuple[list[int | str], list[str | int]]`). Terms containing such a sequence form are outside the
+fragment on which `hash`/`==` are compared. -/
 def seqFlat (ms : List Ty) : List Ty := (ms.map stripMany).flatMap flatten1
 
 def halfRelated : List Ty → Bool
   | [] => false
-  | x :: xs => xs.any (fun y => Ty.hashEq x y != Ty.beq x y) || halfRelated xs
+  | x :: xs => (x :: xs).any (fun y => Ty.hashEq x y != Ty.beq x y) || halfRelated xs
 
 mutual
 def Ty.seqArgsIrregular : Ty → Bool
